@@ -565,7 +565,7 @@ func TestC13(t *testing.T) {
 		return err
 	}
 
-	nHist := scale(36, 400)
+	nHist := scale(36, 300)
 	for hi := 0; hi < nHist; hi++ {
 		ctx, _ := baseCtx.CacheContext()
 		nSteps := 14 + r.Intn(14)
@@ -831,6 +831,13 @@ func (e *c13Env) genOp(ctx sdk.Context, view c13View, maxID uint64) (string, str
 		tgt := p.tgt
 		if r.Intn(6) == 0 || tgt == "" {
 			tgt = pickOwner().String()
+		}
+		// the submitted amounts always equal the stored ones (the amount comparison of
+		// AcceptPayment is not part of the store model), also when a made-up payment collides
+		for _, q := range view.pays {
+			if q.src == p.src && q.ext == p.ext {
+				p.amount = q.amount
+			}
 		}
 		msg := &exchange.MsgAcceptPaymentRequest{Payment: exchange.Payment{Source: p.src, SourceAmount: coins(p.amount), Target: tgt, ExternalId: p.ext}}
 		return fmt.Sprintf("OPayTake %s %s %s", e.addrVar(tgt), e.addrVar(p.src), c13Str(p.ext)), fmt.Sprintf("pay-accept %s %q by %s", e.names[p.src], p.ext, e.names[tgt]), func() error { return e.handle(ctx, msg) }
